@@ -36,11 +36,17 @@ type vmCfg struct {
 	Ops    int   `json:"ops"`
 	Seed   int64 `json:"seed"`
 	NK     int   `json:"nk"`
+	UnitMs int   `json:"unit_ms"`
 }
 
-type vmDB struct{}
+type vmDB struct {
+	slow atomic.Bool // burst rounds: a lookup takes a millisecond, as a real database walk may
+}
 
-func (vmDB) GetIPInfo(ip net.IP) (ipinfo.IPInfo, error) {
+func (d *vmDB) GetIPInfo(ip net.IP) (ipinfo.IPInfo, error) {
+	if d.slow.Load() {
+		time.Sleep(time.Millisecond)
+	}
 	// location by address family / last byte: a pure function, safe for concurrent use
 	x := int(ip[len(ip)-1]) % 3
 	return vfLocTuple(x + 1), nil
@@ -70,6 +76,10 @@ func TestVerifMetricsConcurrent(t *testing.T) {
 	if cfg.NK == 0 {
 		cfg.NK = 4
 	}
+	if cfg.UnitMs == 0 {
+		cfg.UnitMs = 700
+	}
+	unit := time.Duration(cfg.UnitMs) * time.Millisecond
 	f, err := os.Create(outPath)
 	if err != nil {
 		t.Fatalf("HARNESS-ERROR: %v", err)
@@ -85,10 +95,11 @@ func TestVerifMetricsConcurrent(t *testing.T) {
 
 	var clock atomic.Int64
 	saved := now
-	now = func() time.Time { return vfBase.Add(time.Duration(clock.Load()) * time.Second) }
+	now = func() time.Time { return vfBase.Add(time.Duration(clock.Load()) * unit) }
 	defer func() { now = saved }()
 
-	m, err := NewServiceMetrics(vmDB{})
+	db := &vmDB{}
+	m, err := NewServiceMetrics(db)
 	if err != nil {
 		t.Fatalf("HARNESS-ERROR: %v", err)
 	}
@@ -104,19 +115,96 @@ func TestVerifMetricsConcurrent(t *testing.T) {
 			lb = []string{"XL", "", ""}
 		} else {
 			ip := net.ParseIP(vfClientIPs[i-1])
-			li, _ := vmDB{}.GetIPInfo(ip)
+			li, _ := db.GetIPInfo(ip)
 			lb = []string{li.CountryCode.String(), asnLabel(li.ASN.Number), li.ASN.Organization}
 		}
 		labels = append(labels, lb)
 		addrs = append(addrs, vfTCPAddr(i).String())
 	}
 	emit(map[string]any{"ev": "Mode", "mode": "concurrent"})
-	emit(map[string]any{"ev": "Reset", "beh": 0, "db": true, "labels": labels, "clients": addrs, "listeners": []string{}, "mode": "concurrent"})
+	emit(map[string]any{"ev": "Reset", "beh": 0, "db": true, "labels": labels, "clients": addrs, "listeners": []string{}, "mode": "concurrent", "unit_ms": cfg.UnitMs})
 
 	var nextID atomic.Int64
 	open := make([][]*vmConn, cfg.G) // per worker: connections it owns
 	var gathers atomic.Int64
+	scrape := func() {
+		emit(map[string]any{"ev": "CollectBegin", "s": 1})
+		mfs, gerr := reg.Gather()
+		if gerr != nil {
+			t.Fatalf("HARNESS-ERROR: gather: %v", gerr)
+		}
+		keyv, locv := vfTunnel(vfFamsFromGather(mfs))
+		emit(map[string]any{"ev": "CollectEnd", "s": 1, "panic": false, "keyv": keyv, "locv": locv})
+	}
+	tick := func(d int) {
+		clock.Add(int64(d))
+		emit(map[string]any{"ev": "Tick", "d": d})
+	}
+	// everybody runs f(g) at once (released together); the logs are emitted worker by worker afterwards
+	together := func(n int, f func(g int, lg func(map[string]any))) {
+		logs := make([][]map[string]any, n)
+		start := make(chan struct{})
+		var wg sync.WaitGroup
+		for g := 0; g < n; g++ {
+			wg.Add(1)
+			go func(g int) {
+				defer wg.Done()
+				<-start
+				f(g, func(ev map[string]any) { logs[g] = append(logs[g], ev) })
+			}(g)
+		}
+		close(start)
+		wg.Wait()
+		for g := 0; g < n; g++ {
+			for _, ev := range logs[g] {
+				emit(ev)
+			}
+		}
+	}
+	bursts := 0
 	for ph := 0; ph < cfg.Phases; ph++ {
+		// ---- burst round: all workers open the FIRST tunnels of one idle (ip, key) at the same instant (UDP associations
+		// and authenticated TCP connections alike), while a lookup takes a millisecond.  Half of them close after one tick,
+		// the rest after another: the totals at each quiescent scrape must equal the ideal account.
+		for rep := 0; rep < 3; rep++ {
+			bip, bkey := (ph+rep)%ni+1, cfg.NK+1
+			bc := make([]*vmConn, cfg.G)
+			db.slow.Store(true)
+			together(cfg.G, func(g int, lg func(map[string]any)) {
+				c := &vmConn{id: int(nextID.Add(1)), ip: bip}
+				if g%2 == 0 {
+					c.udp = m.AddUDPNatEntry(vfUDPAddr(bip), vfKey(bkey))
+					lg(map[string]any{"ev": "NatAdd", "c": c.id, "ip": bip, "key": bkey})
+				} else {
+					c.tcp = m.AddOpenTCPConnection(&vfTCPConn{local: vfListeners[g%2], remote: vfTCPAddr(bip)})
+					lg(map[string]any{"ev": "Open", "c": c.id, "ip": bip})
+					c.tcp.AddAuthenticated(vfKey(bkey))
+					lg(map[string]any{"ev": "Auth", "c": c.id, "key": bkey})
+				}
+				bc[g] = c
+			})
+			db.slow.Store(false)
+			bursts++
+			scrape()
+			tick(1 + rep%2)
+			closeOne := func(g int, lg func(map[string]any)) {
+				c := bc[g]
+				if c.udp != nil {
+					c.udp.RemoveNatEntry()
+					lg(map[string]any{"ev": "NatRemove", "c": c.id})
+				} else {
+					c.tcp.AddClosed("OK", metrics.ProxyMetrics{ClientProxy: 1, ProxyTarget: 1, TargetProxy: 2, ProxyClient: 2}, time.Second)
+					lg(map[string]any{"ev": "Close", "c": c.id})
+				}
+			}
+			half := cfg.G / 2
+			together(half, closeOne)
+			scrape()
+			tick(2)
+			scrape()
+			together(cfg.G-half, func(g int, lg func(map[string]any)) { closeOne(g+half, lg) })
+			scrape()
+		}
 		logs := make([][]map[string]any, cfg.G)
 		var wg sync.WaitGroup
 		stop := make(chan struct{})
@@ -231,5 +319,5 @@ func TestVerifMetricsConcurrent(t *testing.T) {
 	}
 	keyv, locv := vfTunnel(vfFamsFromGather(mfs))
 	emit(map[string]any{"ev": "CollectEnd", "s": 1, "panic": false, "keyv": keyv, "locv": locv})
-	emit(map[string]any{"ev": "Done", "behaviours": 1, "gathers": gathers.Load(), "conns": nextID.Load()})
+	emit(map[string]any{"ev": "Done", "behaviours": 1, "gathers": gathers.Load(), "conns": nextID.Load(), "bursts": bursts})
 }
